@@ -65,7 +65,7 @@ def violated(r):
 
 
 def scenario_key(s):
-    return json.dumps([s["nw"], s["plan"], [[e["ev"], e["r"], e["w"], e["p"], e["st"]] for e in s["events"]]])
+    return json.dumps([s["nw"], s["plan"], [[e["ev"], e["r"], e["w"], e["p"], e["st"], e.get("fast", False)] for e in s["events"]]])
 
 
 def seq(v):
@@ -310,17 +310,39 @@ def run(tier, replay=None):
     if tr["accepted"]:
         with open(trace) as f:
             evs = [json.loads(l) for l in f]
-        fin = [i for i, e in enumerate(evs) if e["ev"] == "crecv" and e["st"] in ("ok", "failure")]
+        # candidates: an OK verdict of a mutating/load request that had no time to time out (fewer than T ticks
+        # since it was sent) in a run without failures or closed workers: `failure` is then inexplicable
+        fin = []
+        run_start = 0
+        for i, e in enumerate(evs):
+            if e["ev"] == "reset":
+                run_start = i
+            if e["ev"] == "crecv" and e["st"] == "ok":
+                since = [x for x in evs[run_start:i]]
+                sends = [k for k, x in enumerate(since) if x["ev"] == "send" and x["r"] == e["r"]]
+                if not sends or since[sends[-1]]["verb"] not in ("worker", "load"):
+                    continue
+                after = since[sends[-1]:]
+                if sum(1 for x in after if x["ev"] == "tick") >= 2:
+                    continue
+                if any(x["ev"] == "close" or (x["ev"] == "ans" and x["st"] == "failure") for x in since):
+                    continue
+                fin.append(i)
         if fin:
             j = fin[rnd.randrange(len(fin))]
-            evs[j]["st"] = "ok" if evs[j]["st"] == "failure" else "failure"
+            evs[j]["st"] = "failure"
             cpath = os.path.join(wd, "trace_canary.ndjson")
             with open(cpath, "w") as f:
                 f.write("".join(json.dumps(e) + "\n" for e in evs[:min(len(evs), j + 40)]))
             cr = vlib.tlc_trace("Trace_MasterHub", tcfg, PID, cpath, timeout=1200)
-            if cr["accepted"]:
-                raise vlib.ToolError("canary: a trace with a flipped verdict at event %d was accepted" % (j + 1))
-            vlib.log("canary trace rejected at event %s as expected" % cr["consumed"])
+            if cr["accepted"] or (cr["consumed"] or 0) > j:
+                if not rep.violations:
+                    raise vlib.ToolError("canary: a trace with a flipped verdict at event %d was accepted" % (j + 1))
+                vlib.log("canary: flipped verdict at event %d accepted (violations already recorded)" % (j + 1))
+            else:
+                vlib.log("canary trace rejected at event %s as expected (flipped event %d)" % (cr["consumed"], j + 1))
+        else:
+            vlib.log("canary: no suitable verdict in the trace to corrupt")
 
     # ---------------------------------------------------------------- 5: timing probe (measurement only)
     probe = [o for o in vlib.run_harness(bins["replay_hub"], ["--probe-latest", "600"], timeout=120) if o.get("kind") == "probe"]
@@ -344,7 +366,7 @@ def run(tier, replay=None):
     rep.cov["traces_validated_against_impl"] = n_match + runs_ok
     rep.cov["evaluations"] = sum(len(s["events"]) + 1 for s in scen) + summ["events"]
     rep.cov["distinct_nontrivial"] = len(nontrivial) + runs_ok
-    rep.cov["exhaustive"] = True
+    rep.cov["exhaustive"] = all(g[6] is None for g in gens)
     rep.extra["scenarios"] = {"total": len(scen), "matched": n_match, "unrealised": n_unreal,
                               "better_than_open_deviation": n_stale,
                               "per_batch": {b: sum(1 for s in scen if s["batch"] == b) for b in sorted({s["batch"] for s in scen})},
